@@ -129,6 +129,7 @@ class Gen:
         self.cfg = self.draw_cfg()
         self.w = World(self.cfg, prop, None)  # dry: model only
         self.alpha = self.draw_alphabet()
+        self.cfg["triggers"] = bool(self.triggers)
         self.nums = list(NUMBERS[self.rng.choice(prof["numbers"])])
         self.time_profile = prof["time_profile"] or self.rng.choice(
             ["inorder", "jitter", "ties", "random", "adjacent"])
@@ -155,6 +156,7 @@ class Gen:
             cfg["dialect"] = r.choice(["default", "default", "semicolon_all",
                                        "tab", "pipe_sq", "lf"])
         if cfg["storage"] == "csv":
+            cfg["text_chunk"] = r.choice([None, None, 1, 16, 64, 512])
             cfg["copy_chunk"] = r.choice([0, 0, 1, 7, 64, 4096])
             cfg["tmp_same_fs"] = r.random() < 0.5
         if p.get("cfg_override"):
@@ -243,13 +245,15 @@ class Gen:
         return now + r.randint(-5 * 10 ** 9, 5 * 10 ** 9) * us * (
             0 if tp == "inorder" else 1)
 
-    def gen_time_json(self, allow_none=True, allow_naive=True):
+    def gen_time_json(self, allow_none=True, allow_naive=True, rich=None):
         """Time of a point as JSON, in some representation."""
         r = self.rng
         if allow_none and r.random() < 0.2:
             return None
         t = self.gen_instant()
-        if self.prof["time"] != "rich":
+        if rich is None:
+            rich = self.prof["time"] == "rich"
+        if not rich:
             return catalog.time_to_json(t)
         c = r.random()
         if c < 0.35:
@@ -471,19 +475,22 @@ class Gen:
         for n in chosen:
             static = r.random() < 0.55
             if n == "time":
+                rich = self.prof["time"] == "rich" or \
+                    self.prof.get("update_time_rich", False)
                 if static:
-                    spec[n] = {"static": self.gen_time_json(False)}
+                    spec[n] = {"static": self.gen_time_json(False,
+                                                            rich=rich)}
                 else:
                     fn = r.choice(["shift", "shift", "identity", "fixed",
                                    "floor_sec"] + (
-                        ["to_zone", "to_naive_local"]
-                        if self.prof["time"] == "rich" else []))
+                        ["to_zone", "to_naive_local", "fixed"]
+                        if rich else []))
                     s = {"fn": fn}
                     if fn == "shift":
                         s["arg"] = r.choice([1, -1, 10 ** 6, -3600 * 10 ** 6,
                                              86400 * 10 ** 6, -10 ** 9])
                     elif fn == "fixed":
-                        s["arg"] = self.gen_time_json(False)
+                        s["arg"] = self.gen_time_json(False, rich=rich)
                     elif fn == "to_zone":
                         s["arg"] = r.choice(OFFSETS_MIN)
                     spec[n] = s
@@ -684,6 +691,8 @@ class Gen:
             cfgc["auto_index"] = r.choice([True, False])
         if len(self.prof["zones"]) > 1 and r.random() < 0.7:
             cfgc["tz"] = r.choice(self.prof["zones"])
+        if self.prof.get("external") and r.random() < self.prof["external"]:
+            op["external"] = r.choice(["lf_quoted", "quoted"])
         modes = self.prof["modes"]
         if len(modes) > 1:
             mode = r.choice(modes)
@@ -758,8 +767,13 @@ class Gen:
                 val = 5  # falsy values mean "argument absent"
                 if which in ("tags", "fields"):
                     val = 5
+            spec = {}
+            if r.random() < 0.6:
+                # other, valid arguments ride along with the invalid one
+                spec = self.gen_update_spec()
+            spec[which] = {"static": val}
             op = {"op": r.choice(["update", "update_all"]),
-                  "spec": {which: {"static": val}}, "expect_raise": "bad"}
+                  "spec": spec, "expect_raise": "bad"}
             if op["op"] == "update":
                 op["q"] = self.gen_query(0)
             return self.route(op)
